@@ -9,7 +9,9 @@
    step that closes the write window of store / operator= / exchange / a succeeding compare_exchange, appends
    one entry (thread, guard id, operation, result).  RL cf progs s: s = (model state, log) is reachable;
    its projection is a reachable model state and every reachable model state has a log (log_exists).
-   Hypotheses: safe (locking enabled - guarded_opt constructed with false is excluded, as in the property -
+   Hypotheses: plain cf = false (the instrumented payload kind, whose accesses are visible steps; for a plain
+   `long` payload the accesses run inside the step of the preceding visible operation, the exclusion theorems of
+   C01 cover it, the log theorems are stated for the instrumented kind), safe (locking enabled - guarded_opt constructed with false is excluded, as in the property -
    and no client use of a moved-from handle) and incrs = 0 (no completed read-increment-write: modify and
    incr through a handle are not register operations).
 
@@ -37,7 +39,7 @@ Proof. exact WrapperLin.R_RL. Qed.
    payload value x to fst (reg_apply x op) and records snd (reg_apply x op) - exchange records the value it
    replaced, compare_exchange succeeds exactly when current = expected and otherwise reports current *)
 Theorem reg_seq_refines : forall cf progs s t c l g' l' es e,
-  WrapperLin.RL cf progs s -> WrapperProofs.safe cf (fst (gl s)) -> nth_error (thr s) t = Some l ->
+  plain cf = false -> WrapperLin.RL cf progs s -> WrapperProofs.safe cf (fst (gl s)) -> nth_error (thr s) t = Some l ->
   tstep cf t c (fst (gl s)) l = Some (g', l', es) -> incrs g' = 0%nat ->
   WrapperLin.lin_of t (fst (gl s)) l = Some e ->
   WrapperLin.reg_apply (val (fst (gl s))) (WrapperLin.le_op e) = (val g', WrapperLin.le_ret e).
@@ -46,7 +48,7 @@ Proof. exact WrapperLin.reg_seq_refines_l. Qed.
 (* the log of every reachable state is a legal sequential run of reg_apply from the initial value, ending in
    the payload (always the value of the last completed write; in particular whenever no write window is open) *)
 Theorem reg_linearizable : forall cf progs s,
-  WrapperLin.RL cf progs s -> WrapperProofs.safe cf (fst (gl s)) -> incrs (fst (gl s)) = 0%nat ->
+  plain cf = false -> WrapperLin.RL cf progs s -> WrapperProofs.safe cf (fst (gl s)) -> incrs (fst (gl s)) = 0%nat ->
   WrapperLin.legal (init_val cf) (WrapperLin.llog s) (val (fst (gl s))).
 Proof. exact WrapperLin.reg_linearizable_l. Qed.
 
@@ -55,7 +57,7 @@ Proof. exact WrapperLin.reg_linearizable_l. Qed.
    thread was logged under this operation's guard, for this operation, with result code rv - and the next
    step of the thread emits K_RET rv *)
 Theorem reg_returns_logged : forall cf progs s t l o gid rv ro,
-  WrapperLin.RL cf progs s -> WrapperProofs.safe cf (fst (gl s)) -> nth_error (thr s) t = Some l ->
+  plain cf = false -> WrapperLin.RL cf progs s -> WrapperProofs.safe cf (fst (gl s)) -> nth_error (thr s) t = Some l ->
   at_ l = GRel o gid rv false -> WrapperLin.regop_of o = Some ro ->
   (exists e, WrapperLin.head_of t (WrapperLin.llog s) = Some e /\ WrapperLin.le_gid e = gid /\
              WrapperLin.le_op e = ro /\ WrapperLin.ret_code (WrapperLin.le_ret e) = rv) /\
@@ -66,7 +68,7 @@ Proof. exact WrapperLin.reg_returns_logged_l. Qed.
    operation's body (pc Run: after the invocation step and the guard's acquisition, before the guard's
    release and the return), taken by the thread the entry names, which holds the mutex *)
 Theorem reg_lin_point_inside_call : forall cf progs s t l e,
-  WrapperLin.RL cf progs s -> nth_error (thr s) t = Some l -> WrapperLin.lin_of t (fst (gl s)) l = Some e ->
+  plain cf = false -> WrapperLin.RL cf progs s -> nth_error (thr s) t = Some l -> WrapperLin.lin_of t (fst (gl s)) l = Some e ->
   WrapperLin.le_t e = t /\ (exists fr code ph r ok, at_ l = Run fr code ph r ok) /\
   (WrapperProofs.safe cf (fst (gl s)) -> (1 <= WrapperProofs.lx cf l + WrapperProofs.lsh cf l)%nat).
 Proof. exact WrapperLin.reg_lin_point_inside_call_l. Qed.
@@ -102,7 +104,7 @@ Theorem deferred_load_returns : forall (g : DeferredModel.glob) t c l v,
 Proof. exact DeferredProofs.def_load_returns. Qed.
 
 (* ---------- non-vacuity: the bodies run alone, and a contended history ---------- *)
-Definition cf_a : config := Cfg FAtomic MPlain true 7 [].
+Definition cf_a : config := Cfg FAtomic MPlain true 7 [] false.
 Definition rep (t n : nat) : list (nat * nat) := repeat (t, 0%nat) n.
 Definition solo (o : op) := run WrapperLin.lglob loc (WrapperLin.ltstep cf_a) (WrapperLin.linit cf_a [[o]]) (rep 0 16).
 Import WrapperLin.
